@@ -1,6 +1,9 @@
 package main
 
-import "fmt"
+import (
+	"fmt"
+	"sort"
+)
 
 // readsFor returns read operations that look at the structure op o touches.
 func readsFor(g *Gen, o Op) []Op {
@@ -40,6 +43,10 @@ func runC13(c *CaseCtx) {
 	for i := 0; i < ntx && !run.Dead; i++ {
 		g.M = run.M
 		t := g.WriteTx(false)
+		if tpl := c13Template(g, ds); tpl != nil && r.Intn(4) == 0 {
+			t.Ops = tpl
+			c.Stat("remove_readd_pop_templates", 1)
+		}
 		// make the transaction look at what it just did
 		var ops []Op
 		for _, o := range t.Ops {
@@ -127,6 +134,89 @@ func runC13(c *CaseCtx) {
 	c.Nontrivial(selfReads >= 5)
 	if c.Case < 2 {
 		c.Sample(map[string]interface{}{"config": cfg.String(), "transactions": run.NTx, "self_reads": selfReads, "first_steps": firstLines(c.hist, 4)})
+	}
+}
+
+// c13Template builds a transaction of the shape "remove an element, put it back, then pop / read it": every step is
+// valid on the committed state AND on the sequential state, so the known committed-view finding cannot explain a
+// deviation in it, and bookkeeping a transaction keeps about its own earlier operations (pending removals, cached
+// positions) is exercised.
+func c13Template(g *Gen, ds bool) []Op {
+	r, b := g.R, g.bucket()
+	kinds := []string{"kv"}
+	if ds {
+		kinds = append(kinds, "set", "set", "zset", "list")
+	}
+	switch kinds[r.Intn(len(kinds))] {
+	case "kv":
+		lk := g.liveKeys(b)
+		if len(lk) == 0 {
+			return nil
+		}
+		k := g.pick(lk)
+		return []Op{{K: "Delete", B: b, Key: k}, {K: "Put", B: b, Key: k, Val: g.value(b, len(k))}, {K: "Get", B: b, Key: k}}
+	case "set":
+		key := g.pick(g.U.SetKeys)
+		var ms []string
+		for m := range g.M.S[b][string(key)] {
+			ms = append(ms, m)
+		}
+		if len(ms) == 0 {
+			return nil
+		}
+		sort.Strings(ms)
+		m := []byte(ms[r.Intn(len(ms))])
+		var ops []Op
+		// shrink the set to {m} first (in the same transaction) in half of the cases, so that the final pop has one candidate
+		if r.Intn(2) == 0 {
+			for _, x := range ms {
+				if x != string(m) {
+					ops = append(ops, Op{K: "SRem", B: b, Key: key, Vals: [][]byte{[]byte(x)}})
+				}
+			}
+		}
+		switch r.Intn(3) {
+		case 0:
+			ops = append(ops, Op{K: "SRem", B: b, Key: key, Vals: [][]byte{m}})
+		case 1:
+			if len(ms) == 1 {
+				ops = append(ops, Op{K: "SPop", B: b, Key: key})
+			} else {
+				ops = append(ops, Op{K: "SRem", B: b, Key: key, Vals: [][]byte{m}})
+			}
+		default:
+			ops = append(ops, Op{K: "SMove1", B: b, Key: key, Key2: key, Val: m})
+		}
+		ops = append(ops, Op{K: "SAdd", B: b, Key: key, Vals: [][]byte{m}})
+		switch r.Intn(3) {
+		case 0:
+			ops = append(ops, Op{K: "SPop", B: b, Key: key})
+		case 1:
+			ops = append(ops, Op{K: "SIsMember", B: b, Key: key, Val: m})
+		default:
+			ops = append(ops, Op{K: "SMembers", B: b, Key: key})
+		}
+		return ops
+	case "zset":
+		ns := g.M.zsorted(b)
+		if len(ns) < 2 {
+			return nil
+		}
+		i, j := r.Intn(len(ns)), r.Intn(len(ns))
+		g.ctr++
+		ops := []Op{{K: "ZAdd", B: b, Key: []byte(ns[i].K), F: ns[j].S, Val: []byte(fmt.Sprintf("z%d", g.ctr))}}
+		ops = append(ops, Op{K: []string{"ZPopMax", "ZPopMin", "ZPeekMax", "ZPeekMin"}[r.Intn(4)], B: b}, Op{K: "ZRangeByRank", B: b, I: 1, J: -1})
+		return ops
+	default:
+		key := g.pick(g.U.ListKeys)
+		l := g.M.L[b][string(key)]
+		if len(l) == 0 {
+			return nil
+		}
+		if r.Intn(2) == 0 {
+			return []Op{{K: "LPop", B: b, Key: key}, {K: "LPush", B: b, Key: key, Vals: [][]byte{l[0]}}, {K: "LPop", B: b, Key: key}}
+		}
+		return []Op{{K: "RPop", B: b, Key: key}, {K: "RPush", B: b, Key: key, Vals: [][]byte{l[len(l)-1]}}, {K: "RPeek", B: b, Key: key}}
 	}
 }
 
